@@ -398,6 +398,8 @@ def run_int_job(job, classes, r):
         return rec
     nargs, fn, ifn = OPS[op]
     args = [b, c][:nargs]
+    if op in NUMBER_OPS and not (op == "size_in_bits" and a == 0):    # number.size(0) is 0, Integer(0).size_in_bits() is 1: two conventions, both documented only as "size in bits"
+        classes = dict(classes, **{"Util.number": NumberFacade})
     for name, cls in classes.items():
         kinds = ("int", "Integer") if nargs else ("-",)
         for kind in kinds:
@@ -578,6 +580,14 @@ def prime_jobs(tier):
                              first=first, nfirst=(bits + 7) // 8))
     for bits in ([161] if quick else [161, 192, 256]):
         jobs.append(dict(op="generate_probable_safe_prime", bits=bits, cls="generated safe prime"))
+    # Crypto.Util.number: getPrime for every size from 2 bits on, getStrongPrime (exact size, p-1 coprime to e), refusals
+    for bits in ([1, 2, 3, 4, 8, 9, 31, 32, 33, 64, 65, 160, 257] if quick else [0, 1] + list(range(2, 40)) + [63, 64, 65, 127, 128, 129, 160, 255, 256, 257, 512]):
+        jobs.append(dict(op="number_getPrime", bits=bits, cls="Util.number.getPrime"))
+    for bits in ([8, 257] if quick else [2, 8, 64, 257]):
+        for first in (255, 0):
+            jobs.append(dict(op="number_getPrime", bits=bits, cls="Util.number.getPrime, first candidate all-%s" % ("ones" if first else "zeros"), first=first, nfirst=(bits + 7) // 8 + 1))
+    for bits, e in ([(512, 65537), (384, 0), (520, 0)] if quick else [(512, 65537), (512, 3), (640, 65537), (1024, 0), (384, 0), (520, 0), (0, 0), (511, 0)]):
+        jobs.append(dict(op="number_getStrongPrime", bits=bits, e=e, cls="Util.number.getStrongPrime"))
     for k_, j in enumerate(jobs):
         j["k"] = k_
     return jobs
@@ -589,6 +599,21 @@ def run_prime_job(job, classes):
     rec = {"fam": "prime", "op": op, "cls": job.get("cls", ""), "cand": [], "truth": "", "f": [], "g": [], "iters": 0, "bits": 0,
            "w": {"square": 0, "s": []}, "certs": [], "obs": []}
     cert_index = {}
+    if op in ("number_getPrime", "number_getStrongPrime"):
+        from Crypto.Util import number
+        rec["bits"] = job["bits"]
+        rec["iters"] = job.get("e", 0)                 # the public exponent p - 1 must be coprime to (0: none)
+        o = {"who": "Util.number", "ex": "none", "tn": "none", "r": 0, "v": [], "bases": [], "certified": 0, "comp": []}
+        tape = Tape("gen/%s/%d/%d" % (op, job["bits"], job.get("k", 0)), job.get("first"), job.get("nfirst", 0))
+        try:
+            p = number.getPrime(job["bits"], randfunc=tape) if op == "number_getPrime" else number.getStrongPrime(job["bits"], e=job.get("e", 0), randfunc=tape)
+            o["tn"] = "Integer" if type(p) is int else type(p).__name__     # "Integer" = the documented type (here: int)
+            o["v"] = limbs(int(p))
+            o["comp"] = composite_cert(int(p))
+        except Exception as ex:
+            o["ex"] = exc_class(ex)
+        rec["obs"].append(o)
+        return rec
     saved = Primality.Integer
     try:
         for name, cls in classes.items():
@@ -602,13 +627,14 @@ def run_prime_job(job, classes):
                 return v
             cls.random_range = classmethod(spy)
             try:
-                o = {"who": name, "ex": "none", "tn": "none", "r": 0, "v": [], "bases": [], "certified": 0}
+                o = {"who": name, "ex": "none", "tn": "none", "r": 0, "v": [], "bases": [], "certified": 0, "comp": []}
                 if op in ("generate_probable_prime", "generate_probable_safe_prime"):
                     rec["bits"] = job["bits"]
                     try:
                         p = getattr(Primality, op)(exact_bits=job["bits"], randfunc=Tape("gen/%s/%d/%d" % (op, job["bits"], job.get("k", 0)), job.get("first"), job.get("nfirst", 0)))
                         o["tn"] = "Integer" if type(p) is cls else type(p).__name__
                         o["v"] = limbs(int(p))
+                        o["comp"] = composite_cert(int(p))
                     except Exception as ex:
                         o["ex"] = exc_class(ex)
                     rec["obs"].append(o)
@@ -650,7 +676,66 @@ def run_prime_job(job, classes):
                     cls.random_range = orig
     finally:
         Primality.Integer = saved
+    if op == "test_probable_prime":
+        # Crypto.Util.number.isPrime is a second public primality test (its own Miller-Rabin): same candidates, same ground truth
+        from Crypto.Util import number
+        oo = {"who": "Util.number/isPrime", "ex": "none", "tn": "none", "r": 0, "v": [], "bases": [], "certified": 0, "comp": []}
+        try:
+            res = number.isPrime(job["n"], randfunc=Tape("isPrime/%d" % job["k"]))
+            oo["r"] = int(res)
+            oo["tn"] = type(res).__name__
+        except Exception as ex:
+            oo["ex"] = exc_class(ex)
+        rec["obs"].append(oo)
     return rec
+
+
+class NumberFacade:
+    """Crypto.Util.number's GCD / inverse / size seen through the call shapes of the Integer API, so that the same records and the same
+    relations (data/BigInt: BiSpecGcd, BiSpecInverse, size_in_bits) judge them"""
+
+    def __init__(self, v):
+        self.v = int(v)
+
+    def __int__(self):
+        return self.v
+
+    def gcd(self, t):
+        from Crypto.Util import number
+        return NumberFacade(number.GCD(self.v, int(t)))
+
+    def inverse(self, m):
+        from Crypto.Util import number
+        return NumberFacade(number.inverse(self.v, int(m)))
+
+    def inplace_inverse(self, m):
+        from Crypto.Util import number
+        self.v = number.inverse(self.v, int(m))
+        return self
+
+    def size_in_bits(self):
+        from Crypto.Util import number
+        return number.size(self.v)
+
+
+NUMBER_OPS = ("gcd", "inverse", "size_in_bits")
+
+
+def composite_cert(p):
+    """[] when p passes an independent Miller-Rabin test, else one certified round with a witness base (for TLC to check)"""
+    if p < 5 or p % 2 == 0 or _py_is_probable_prime(p):
+        return []
+    for b in (2, 3, 5, 7, 11, 13, 17, 19, 23, 29, 31, 37, 41):
+        if b < p - 2:
+            c = mr_cert(p, b)
+            z = val_limbs(c["r"])
+            if z not in (1, p - 1) and not any(val_limbs(l["v"]) == p - 1 for l in c["sq"]):
+                return [dict(c, b=limbs(b))]
+    return []
+
+
+def val_limbs(ls):
+    return sum(x << (12 * i) for i, x in enumerate(ls))
 
 
 def backends():
